@@ -158,7 +158,7 @@ def eval_gate(triples, tier, rng):
             vs = [v for v in s if v[3] and not v[4]][:6]
             if vs:
                 certs.append('map (r_satisfies %s) [%s] = [%s]' % (F.g_range(st), ';'.join(F.g_version(v) for v in vs), ';'.join(F.g_bool(s[v]) for v in vs)))
-    return {'failures': fails[:40], 'nontrivial': nontrivial, 'distribution': dist, 'certs': certs}
+    return {'failures': fails, 'nontrivial': nontrivial, 'distribution': dist, 'certs': certs}
 
 # ------------------------------------------------------------------ C14
 def gen_extreme(tier, rng):
@@ -242,4 +242,4 @@ def eval_extreme(triples, tier, rng):
         if len(ms) > 1 and any(py_vcmp(ms[0][0], m) != 0 for m, _ in ms[1:]):
             fails.append({'what': '%s depends on the order of the slice beyond precedence-equal elements: %s vs %s' % (which, vtext(ms[0][0]), vtext(ms[1][0])),
                           'case': ms[1][1], 'input': [key], 'kind': 'extreme-perm'})
-    return {'failures': fails[:40], 'nontrivial': nontrivial, 'distribution': dist, 'certs': certs}
+    return {'failures': fails, 'nontrivial': nontrivial, 'distribution': dist, 'certs': certs}
